@@ -100,6 +100,9 @@ const (
 	selH1
 	selH2
 	selMax
+	selMid  // T + (H-T)/2
+	selMid1 // selMid + 1
+	selMidK // selMid + k
 	selCount
 )
 
@@ -134,6 +137,12 @@ func resolveSel(m *storeModel, sel, k int) uint64 {
 		return H + 1
 	case selH2:
 		return H + 2
+	case selMid:
+		return T + (H-T)/2
+	case selMid1:
+		return T + (H-T)/2 + 1
+	case selMidK:
+		return T + (H-T)/2 + uint64(k)
 	default:
 		return math.MaxUint64
 	}
